@@ -90,6 +90,19 @@ Theorem C03_search_of_text :
     Api.search ord (expr_text lit_text e) d = eval ord e d.
 Proof. exact (search_expr_text lit_text lit_ok). Qed.
 
+(* adding whitespace between tokens never changes the AST: any two texts that put
+   some whitespace after each token of the tree's spelling compile to compile e *)
+Theorem C03_whitespace_never_changes_the_ast :
+  forall (e : expr) l1 l2, wp e = true -> npos e = true -> ws_text_ok l1 -> ws_text_ok l2 ->
+    map fst l1 = render lit_text e -> map fst l2 = render lit_text e ->
+    Api.compile (text_ws l1) = Api.compile (text_ws l2).
+Proof. exact (whitespace_insignificant lit_text lit_ok). Qed.
+
+Theorem C03_compile_of_any_spaced_text :
+  forall (e : expr) l, wp e = true -> npos e = true -> ws_text_ok l -> map fst l = render lit_text e ->
+    Api.compile (text_ws l) = Ok (compile e).
+Proof. exact (compile_text_ws lit_text lit_ok). Qed.
+
 (* fuel is immaterial: any two amounts that suffice give the same answer *)
 Theorem C03_fuel_independent :
   forall ts f f' bp i,
@@ -104,6 +117,8 @@ Print Assumptions C03_parse_of_any_spelling.
 Print Assumptions C03_parse_render.
 Print Assumptions C03_compile_of_text.
 Print Assumptions C03_search_of_text.
+Print Assumptions C03_whitespace_never_changes_the_ast.
+Print Assumptions C03_compile_of_any_spaced_text.
 Print Assumptions C03_fuel_independent.
 Print Assumptions C03_binding_powers_realise_the_levels.
 Print Assumptions C03_call_sites_pass_the_right_level.
